@@ -127,6 +127,73 @@ def enum_switch_obs(en, rnd, idx, wrap_distinct=False):
     return obs, decl_extra
 
 
+def roundtrip_obs(rnd, nenums):
+    """numbering-agnostic: a value BUILT as variant V (by the compiler's own conversion) must run V's arm and be no other
+    variant. The enums mix auto-numbered variants with explicit discriminants that sit where auto-numbering would
+    land (so any scheme that lets two variants share a tag is exposed)."""
+    obs = []; decls = []
+    shapes = [[('Point', None, None), ('Circle', S('i32'), None), ('Line', None, 1), ('Square', S('i32'), 2)],
+              [('A', S('u8'), None), ('B', None, 0), ('C', S('u8'), None)],
+              [('A', None, 2), ('B', S('i64'), None), ('C', None, 3), ('D', S('u8'), None), ('E', None, 0)]]
+    for i in range(nenums):
+        n = rnd.randint(2, 6)
+        vs = []
+        for k in range(n):
+            vs.append(('W%d' % k, rnd.choice([None, S('u8'), S('i32'), S('i64')]), rnd.choice([None, None, rnd.randint(0, n + 1)])))
+        # explicit discriminants must be pairwise different (the compiler rejects duplicates)
+        seen = set(); ok = True
+        for _, _, d in vs:
+            if d is not None and d in seen:
+                ok = False
+            if d is not None:
+                seen.add(d)
+        if ok:
+            shapes.append(vs)
+    for si, vs in enumerate(shapes):
+        en = Enum('Rt%d' % si, vs)
+        decls.append(en.decl())
+        arms = ', '.join('.%s => { mark(%d);%s }' % (vn, k + 1, payload_stmts(pay, 'v', pay is not None)) for k, (vn, pay, _) in enumerate(vs))
+        for k, (vn, pay, _) in enumerate(vs):
+            name = 'rt_%s_%s' % (en.name, vn)
+            others = ' '.join('if #is_variant(e, %s.%s) { mark(%d); }' % (en.name, wn, 500 + j) for j, (wn, _, _) in enumerate(vs) if j != k)
+            if pay is None:
+                src = '%s :: () { e : %s = %s.%s; switch v in e { %s } %s }' % (name, en.name, en.name, vn, arms, others)
+                params = []
+            else:
+                src = '%s :: (x: %s) { e : %s = %s.%s.(x); switch v in e { %s } %s }' % (name, pay.src(), en.name, en.name, vn, arms, others)
+                params = [('scalar', pay.src())]
+
+            def post(ctx, xs, k=k, pay=pay):
+                got = ctx.marks()
+                if ctx.status != 'ret':
+                    return [('a value built as a declared variant never aborts the switch', z3.BoolVal(False))]
+                exp = [k + 1] + ([ext64(xs[0], pay.signed())] if pay is not None else [])
+                return [('the variant that was built runs exactly its own arm with its payload, and is no other variant', marks_eq(got, exp))]
+            ob = Ob(name, src, params, None, post, {'kind': 'switch-roundtrip', 'sum': 'enum'}, event_funcs={'mark'})
+            ob.handles_abort = True
+            obs.append(ob)
+        # the same with only some variants named and a default arm (a shared tag then runs a wrong arm instead of crashing)
+        named = [k for k in range(len(vs)) if k % 2 == 1] or [0]
+        sub_arms = ', '.join('.%s => { mark(%d);%s }' % (vs[k][0], k + 1, payload_stmts(vs[k][1], 'v', vs[k][1] is not None)) for k in named) + ', _ => { mark(99); }'
+        for k, (vn, pay, _) in enumerate(vs):
+            name = 'rs_%s_%s' % (en.name, vn)
+            if pay is None:
+                src = '%s :: () { e : %s = %s.%s; switch v in e { %s } }' % (name, en.name, en.name, vn, sub_arms); params = []
+            else:
+                src = '%s :: (x: %s) { e : %s = %s.%s.(x); switch v in e { %s } }' % (name, pay.src(), en.name, en.name, vn, sub_arms); params = [('scalar', pay.src())]
+
+            def post2(ctx, xs, k=k, pay=pay, named=named):
+                got = ctx.marks()
+                if ctx.status != 'ret':
+                    return [('a switch with a default arm never aborts', z3.BoolVal(False))]
+                exp = ([k + 1] + ([ext64(xs[0], pay.signed())] if pay is not None else [])) if k in named else [99]
+                return [('the variant that was built runs its own arm, or the default arm when it is not named', marks_eq(got, exp))]
+            ob = Ob(name, src, params, None, post2, {'kind': 'switch-roundtrip-default', 'sum': 'enum'}, event_funcs={'mark'})
+            ob.handles_abort = True
+            obs.append(ob)
+    return obs, decls
+
+
 def other_sum_obs():
     obs = []
     for oty, nm in ((Opt(S('i32')), 'oi32'), (Opt(S('u8')), 'ou8'), (Opt(S('i64')), 'oi64'), (Opt(PAIR), 'opair')):
@@ -235,11 +302,9 @@ def run(chk, tier, seed):
         o, _ = enum_switch_obs(en, rnd, i)
         obs += o
     obs += other_sum_obs()
-    src = clifcheck.PRELUDE + '\n'.join(decls) + '\n' + '\n'.join(o.src for o in obs) + '\n'
-    refs = 'refs :: () {\n' + '\n'.join('    r%d := %s;' % (i, o.name) for i, o in enumerate(obs)) + '\n}\n'
-    mod, out = clifcheck.compile_module('C11', 'switches', src + refs + 'main :: () { refs(); }\n')
-    if mod is None:
-        raise Inconclusive('the C11 template was rejected by the compiler:\n' + out[-1500:])
+    ro, rdecls = roundtrip_obs(rnd, 6 if tier == 'quick' else 60)
+    obs += ro; decls += rdecls
+    mod, obs, src, refs = clifcheck.compile_obligations(chk, 'switches', clifcheck.PRELUDE + '\n'.join(decls) + '\n', obs)
     chk.opcodes.update(mod.opcodes)
     prover = Prover(chk)
     bad = 0
